@@ -890,6 +890,47 @@ def r9(ctx):
             raise AnalysisError('C17.R9', construct, f'stored value not understood: {show(now, 120)}')
 
 
+PIXCOORD_DESCRIPTORS = ('ScalarPixCoord', 'OneDPixCoord')
+
+
+def r9b(ctx):
+    """the pixel-coordinate attributes: a PixCoord is a mutable object (`coord.x = ...` is an ordinary assignment), so a
+    descriptor that stores the caller's object and hands the stored object out lets `region.center.x = np.arange(3)` (or a
+    later change of the caller's own PixCoord) turn a validated scalar centre into an array behind the validator. The
+    descriptors must keep and hand out copies (as the Quantity descriptors do) — decided on the value of __get__/__set__."""
+    from ..vg import DictV
+    m = ctx.model
+    for name in PIXCOORD_DESCRIPTORS:
+        ci = m.cls(name)
+        ctx.need(ci is not None, name, 'descriptor class not found')
+        getf, setf, valf = m.method(ci, '__get__'), m.method(ci, '__set__'), m.method(ci, '_validate')
+        ctx.need(getf is not None and setf is not None and valf is not None, name, '__get__/__set__/_validate not found')
+        stored, given = Obj('PixCoord', {}, 'STORED', m.cls('PixCoord')), Obj('PixCoord', {}, 'GIVEN', m.cls('PixCoord'))
+        d = DictV([{'attr': stored}])
+        inst = Obj('Region', {'__dict__': d}, 'instance')
+        desc = Obj(name, {'name': Const('attr')}, 'descriptor', ci)
+        ev = Evaluator(m, hooks={valf.qualname: lambda e, a_, k_: Const(None)})
+        out = ev.run(getf, [desc, inst, Const(None)], {})
+        got = [v for _, v in out.returns]
+        ctx.need(len(got) == 1, f'{name}.__get__', f'{len(got)} outcomes')
+        if got[0] is stored or same(got[0], stored):
+            ctx.bad(f'{name}.__get__', 'by-reference',
+                    f'{name} hands out the stored PixCoord object itself: `region.center.x = np.arange(3)` (an ordinary attribute '
+                    'assignment on that object) makes the validated scalar centre an array, with no validator involved',
+                    getf.loc())
+        else:
+            ctx.ok(f'{name}.__get__', f'hands out {show(got[0], 60)}')
+        ev.run(setf, [desc, inst, given], {})
+        now = d.get('attr')
+        if now is None or now is given or same(now, given):
+            ctx.bad(f'{name}.__set__', 'by-reference',
+                    f'{name} stores the PixCoord object it is given: the caller keeps a handle on the region\'s coordinate '
+                    '(`mine = PixCoord(3, 4); reg = CirclePixelRegion(mine, 2.); mine.x = np.arange(3)` changes the region)',
+                    setf.loc())
+        else:
+            ctx.ok(f'{name}.__set__', f'stores {show(now, 60)}')
+
+
 def r10(ctx):
     """a falsy value that is not a dictionary (0, '', [], False) given as meta= / visual= is rejected like its truthy
     twin ([1], 'x'): `self.meta = meta or RegionMeta()` swallows it, `RegionMeta() if meta is None else meta` does not.
@@ -966,5 +1007,6 @@ RULES = [
     RuleDef('R7', 'region lists only accept regions', r7, 4),
     RuleDef('R8', 'bounding-box / mask constructor guards', r8, 3),
     RuleDef('R9', 'Quantity-valued attributes are handed out and stored by value (rejected augmented assignment)', r9, 4),
+    RuleDef('R9b', 'PixCoord-valued attributes are handed out and stored by value', r9b, 4),
     RuleDef('R10', 'falsy non-dictionary meta=/visual= are rejected by every constructor (only None means "not given")', r10, 30),
 ]
